@@ -91,7 +91,8 @@ def _materialise_files(run, step, tag):
             src = run.store[0]
             d['data'] = src['data']
             d['path'] = run.fs.write(key, src['data'])
-            d['fault'] = {'kind': 'eacces'} if bad == 'eacces' else {'kind': 'eio', 'after': f.get('after', 0)}
+            # the I/O error must actually be met: it strikes before the last byte of the file
+            d['fault'] = {'kind': 'eacces'} if bad == 'eacces' else {'kind': 'eio', 'after': min(f.get('after', 0), max(0, len(src['data']) - 1))}
         out.append(d)
     return out
 
